@@ -303,6 +303,15 @@ def make_scheduler(sc, resources):
     """The scheduler object is constructed under a clock that is nine days EARLIER than the clock calc runs under:
     "the current day" of the properties is the day of the calc call, not the day the object was built."""
     from pjplan import ForwardScheduler, BackwardScheduler
+    if sc.layer == 'L1i':
+        # no date given: the project starts / ends "now", i.e. at the clock value the constructor sees - the scenario's anchor
+        seams.CLOCK.set_const(sc.anchor)
+        if sc.balance and not resources and not sc.dflt:
+            # the bare constructor: every argument left to its default
+            return ForwardScheduler() if sc.sched == 'fwd' else BackwardScheduler()
+        if sc.sched == 'fwd':
+            return ForwardScheduler(resources=resources, balance_resources=sc.balance, default_estimate=sc.dflt)
+        return BackwardScheduler(resources=resources, balance_resources=sc.balance, default_estimate=sc.dflt)
     seams.CLOCK.set_const(calc_clock(sc) - 9 * DAY)
     if sc.sched == 'fwd':
         return ForwardScheduler(start=sc.anchor, resources=resources, balance_resources=sc.balance,
